@@ -242,9 +242,28 @@ AUDIT = {
             '12-fragment molecules; phred 1, 2, 41, 93; CIGAR features inside pairs; IUPAC codes; pick_best_base_call on all words of <=3 calls.',
             'Fragments have an R1 (R2-only fragments are skipped by the code); the position carrying an ambiguity code is left open; allow_N=True '
             'raises NotImplementedError (a refusal).'),
+    'C14': ('Audit extension: all six TAPS molecule classes (TAPSMolecule, the two annotated classes and TAPSPTaggedMolecule on the short '
+            'windows, pairs also under allow_unsafe_base_calls); contigs shorter than a context, mixed-case and IUPAC contigs, and a G on '
+            'position 2 / a C on the third position from the end (first complete contexts); outward-facing, same-strand, spliced, clipped '
+            'and indel shapes; a vote family (mate disagreement at three quality relations, 1-3 further fragments with splits, majorities, '
+            'ties and N copies, min_phred_score at the boundaries) judged by an independent implementation of the consensus definition; '
+            'a retag family (custom tag names, reads subsets); all clauses on every read of every fragment.',
+            'A lower-case call on a non-conversion substitution is accepted; the safe span of same-strand mates is undefined (permissive '
+            'oracle); the MD-missing branch is unreachable (get_consensus swallows it first).'),
+    'C16': ('Audit extension: every point under each optim variant (nb, optim, unoptimised fallback); strand-less features and names '
+            'shared per strand; two live containers interleaved (class-level memo) in debug mode; coordinates + 3e9; reads with clips, '
+            'indels, unknown contigs; molecule level with reverse reads, mate pairs, two fragments, methods 0/1, the constructor\'s own '
+            'annotation, capture_locations on/off, observed through feature_locations, hits and exons/introns/genes; fragment-level '
+            'annotation; a file level (each word written as GTF, four loadGTF argument sets, every prefetch(contig,lo,hi) clone inside its '
+            'window, a second round through loadBED with 3/4/6/12 columns).',
+            'Histories always sort() between additions and queries (the quantifier of the property); a strand-less feature under a stranded '
+            'query, base end of a BED feature and deleted read bases are left open; findNearestFeature, inverted ranges and loaders '
+            'refusing strand "." are not covered.'),
     'C15': ('Audit extension: fragments with an unmapped mate (R2 unmapped as a normal letter; R1 unmapped = strand-less molecule), class-rejected '
             'pairs (off-site, same-strand mates) through every API and the command line with yield_invalid as bamtagmultiome configures it, '
-            'one-base deletions and soft clips, write_pysam with a consensus_read_callback, a soft-masked reference with an extra MD clause.',
+            'one-base deletions and soft clips, write_pysam with a consensus_read_callback, a soft-masked reference with an extra MD clause; '
+            'placement on the contig (molecules covering coordinate 0 / the last base, all classes, APIs and the command line); a second '
+            'alternative base with all insertion orders and a three-base oracle (dominating -> that base, identical evidence -> N).',
             'CHIC molecules with assignment radius >0 are not generated; "no record skips more than max_N_span" is taken from the parameter name; '
             'the strand flag and DS of strand-less / site-less molecules and TR with an unmapped R2 are not checked.'),
     'C17': ('Audit extension: blacklist=None, duplicated intervals, four-interval merges, every fragment size 0..R+1 at R=8; bp_chunked on every '
